@@ -31,6 +31,13 @@ def paired_cfgs(tier, seed):
         objs = ["asym", "plateau", "negative"] + (["huge", "ties", "onemax" if cn not in T.FLOAT else "sphere"] if tier == "thorough" else [])
         for j, o in enumerate(objs):
             out.append((cn, dict(base, objective=o, elitism=(j % 2 == 0), seed=seed * 50 + j, g2p=(j == 2))))
+        # failed evaluations (infinite objective values) with operators that read the scaled fitness
+        if cn == "GeneticAlgorithm":
+            out.append((cn, dict(base, objective="fail_hi", selection="proportional", crossover="uniform_prop_2", elitism=False, seed=seed * 50 + 31)))
+            out.append((cn, dict(base, objective="fail_hi", selection="tournament_3", crossover="uniform_tour_3", elitism=True, seed=seed * 50 + 32)))
+            out.append((cn, dict(base, objective="inf", selection="proportional", crossover="one_point", elitism=False, seed=seed * 50 + 34)))
+        if cn in ("SelfCGA", "PDPGA", "GeneticProgramming"):
+            out.append((cn, dict(base, objective="fail_hi", elitism=False, seed=seed * 50 + 33)))
         if cn not in T.GP:
             # an objective that hands back a view of the array it was given
             out.append((cn, dict(base, objective="view", elitism=True, seed=seed * 50 + 30)))
